@@ -209,24 +209,50 @@ def r12_2(ctx, rep, BO, UO):
             rep.check(SY.get(name) == lx, "R12.2", lo.where, lo.qual, f"{what} `{lx}` is printed as `{SY.get(name)}` in the term name", "",
                       f"operator.{name} (lexeme `{lx}`) is printed as `{SY.get(name)}`: the name no longer spells the call")
     # resolver plumbing
-    vb = cr.methods["visitBinaryExpr"]
-    p = vb.params[1]
-    rets = [n for n in walk_local(vb.node) if isinstance(n, ast.Return)]
-    ok = len(rets) == 1 and isinstance(rets[0].value, ast.Call) and dotted(rets[0].value.func) == "LazyOperator" and \
-        [unparse(a) for a in rets[0].value.args[1:]] == [f"{p}.left.accept(self)", f"{p}.right.accept(self)"]
-    opvar = unparse(rets[0].value.args[0]) if ok else None
-    defs = {unparse(s.targets[0]): unparse(s.value) for s in walk_local(vb.node) if isinstance(s, ast.Assign)}
-    ok = ok and defs.get(opvar) in (f"self.BINARY_OPERATORS.get({[k for k, v in defs.items() if v == p + '.operator.kind'][0] if [k for k, v in defs.items() if v == p + '.operator.kind'] else '?'})",)
-    obl(rep, vb, rets[0] if rets else vb.node, "R12.2", ok, "visitBinaryExpr: LazyOperator(BINARY_OPERATORS[kind], left, right) - operands in source order", "",
-        "binary operators inside calls are not resolved as LazyOperator(table[kind], left, right)")
-    guard = [i for i in walk_local(vb.node) if isinstance(i, ast.If) and unparse(i.test) == f"{opvar} is None" and any(isinstance(x, ast.Raise) for x in i.body)]
-    obl(rep, vb, guard[0] if guard else vb.node, "R12.2", len(guard) == 1, "a kind without a table entry raises CallResolverError")
-    vu = cr.methods["visitUnaryExpr"]
-    p = vu.params[1]
-    rets = [n for n in walk_local(vu.node) if isinstance(n, ast.Return)]
-    ok = len(rets) == 1 and isinstance(rets[0].value, ast.Call) and dotted(rets[0].value.func) == "LazyOperator" and \
-        [unparse(a) for a in rets[0].value.args[1:]] == [f"{p}.right.accept(self)"] and "self.UNARY_OPERATORS.get(" in unparse(vu.node)
-    obl(rep, vu, rets[0] if rets else vu.node, "R12.2", ok, "visitUnaryExpr: LazyOperator(UNARY_OPERATORS[kind], operand)")
+    from . import shared as _sh
+
+    def dispatch(method, table_attr, operand_fields, label):
+        """partial evaluation of the visitor per operator kind: LazyOperator(<table entry>, operands in source order); a kind
+        without an entry raises"""
+        m = cr.methods[method]
+        p_ = m.params[1]
+        kvar = None
+        for st_ in m.body:
+            if isinstance(st_, ast.Assign) and unparse(st_.value) == f"{p_}.operator.kind" and isinstance(st_.targets[0], ast.Name):
+                kvar = st_.targets[0].id
+        table = _dict_literal(cr.class_attrs[table_attr])
+        if kvar is None:
+            # the kind may be used without a temporary: give it one
+            import copy as _c
+            rep.defer(f"R12.2: {m.qual}: `<kind> = {p_}.operator.kind` not found")
+            return
+        want_args = [f"{p_}.{fld}.accept(self)" for fld in operand_fields]
+        okall, bad = True, []
+        for kind, entry in sorted(table.items()):
+            try:
+                out = _sh.specialise(prog, m, kvar, kind)
+            except AnalysisError as e:
+                rep.defer(f"R12.2: {e}")
+                return
+            ok_ = out[0] == "return" and isinstance(out[1], ast.Call) and dotted(out[1].func) == "LazyOperator" and not out[1].keywords \
+                and len(out[1].args) == 1 + len(want_args) and unparse(out[1].args[0]) == unparse(entry) \
+                and [unparse(a) for a in out[1].args[1:]] == want_args
+            if not ok_:
+                okall = False
+                bad.append(f"{kind} -> {unparse(out[1]) if out[0] == 'return' else out[0]}")
+        obl(rep, m, m.node, "R12.2", okall, f"{method}: LazyOperator({table_attr}[kind], {label}) - operands in source order", f"{len(table)} kinds", 
+            f"operators inside calls are not resolved as LazyOperator(table[kind], {label}): {bad[:3]}")
+        try:
+            unk = _sh.specialise(prog, m, kvar, "<no such kind>")
+        except AnalysisError as e:
+            rep.defer(f"R12.2: {e}")
+            return
+        okr = unk[0] == "raise" and isinstance(unk[1].exc, ast.Call) and dotted(unk[1].exc.func) == "CallResolverError"
+        obl(rep, m, unk[1] if unk[0] == "raise" else m.node, "R12.2", okr, f"{method}: a kind without a table entry raises CallResolverError", "",
+            f"an operator kind outside {table_attr} ends in `{unk[0]}`")
+
+    dispatch("visitBinaryExpr", "BINARY_OPERATORS", ["left", "right"], "left, right")
+    dispatch("visitUnaryExpr", "UNARY_OPERATORS", ["right"], "operand")
     init = lo.methods["__init__"]
     st = [s for s in walk_local(init.node) if isinstance(s, ast.Assign) and is_self_attr(s.targets[0], "symbol")]
     obl(rep, init, st[0] if st else init.node, "R12.2", len(st) == 1 and unparse(st[0].value) == "self.SYMBOLS[op.__name__]",
